@@ -203,6 +203,13 @@ def describe(obj):
     return {'label': l, 'children': [describe(c) for c in ch] if ch is not None else None}
 
 
+# completion of the positions the code never inspected (label None): the replay tries several, see COMPLETIONS
+DEFAULTS = {}
+WELLFORMED_COMPLETIONS = [{}, {'elem': 'bool'}, {'elem': 'negfloat'}, {'elem': 'zero'}]
+MALFORMED_COMPLETIONS = [{'elem': 'str'}, {'elem': 'none'}, {'player': 'int'}, {'player': 'foreign0'}, {'player': 'foreign1'}, {'player': 'foreign2'},
+                         {'player': 'foreign3'}, {'player': 'none'}, {'team': 'none'}, {'team': 'list0'}, {'team': 'tuple'}]
+
+
 def build_concrete(key, d, kind, registry):
     """rebuild a concrete argument from a description (replay side, no proxies)"""
     Model = H.model_class(key)
@@ -222,6 +229,7 @@ def build_concrete(key, d, kind, registry):
         d = {'label': None, 'children': None}
     l = d['label']
     ch = d['children']
+    l = l or DEFAULTS.get(kind)
     if kind == 'player':
         l = l or 'own'
         if l.startswith('foreign'):
@@ -350,8 +358,16 @@ def run_job(spec, ctx):
                     probs.append('a rating passed in was modified by a rejected call')
                     break
         sample = {'model': key, 'op': op, 'outcome': out['outcome'], 'malformed_by_spec': mal, 'arguments': desc}
+        cands = None
+        if probs:
+            cands = [{'model': key, 'op': op, 'desc': desc, 'note': probs[0]}]
+            if mal is None:
+                # the verdict depends on positions the code never looked at: one candidate per completion of those positions
+                comps = WELLFORMED_COMPLETIONS if out['outcome'] != 'ok' else MALFORMED_COMPLETIONS
+                cands = [{'model': key, 'op': op, 'desc': desc, 'note': probs[0], 'defaults': c} for c in comps]
+                H.mark_last(cands)
         ctx.ob(f'{op}: outcome {out["outcome"]} vs spec malformed={mal}' + (': ' + probs[0] if probs else ''),
-               'sat' if probs else 'unsat', {'model': key, 'op': op, 'desc': desc, 'note': probs[0]} if probs else None,
+               'sat' if probs else 'unsat', cands,
                sample=sample if (ctx.paths % 97 == 1) else None)
         ctx.add_engine(eng)
     ctx.notes.append(f'{op}: {n_ok} accepting paths, {n_rej} rejecting paths')
@@ -364,6 +380,8 @@ def replay(cand):
         return {'violated': False, 'detail': 'no concrete arguments recorded for this path: ' + str(cand.get('note')), 'key': f'{key}:{op}:exc'}
     registry = []
     d = cand['desc']
+    DEFAULTS.clear()
+    DEFAULTS.update(cand.get('defaults') or {})
     teams = build_concrete(key, d['teams'], 'teams', registry)
     ranks = build_concrete(key, d['ranks'], 'vec', registry) if op == 'rate' else None
     scores = build_concrete(key, d['scores'], 'vec', registry) if op == 'rate' else None
